@@ -133,7 +133,9 @@ CHECKS = {
                 "in order), each row's indentation/type/name/value columns are those of its event (c14_row_columns); for every shaped stream (value events resolve to known "
                 "classes, byte-buffer children carry values) the printer returns rows (c14_total), and the events printer has one row per event (c14_events_rows). The model of "
                 "both printers (incl. list folding and bit rows) is tied by a both-mode differential run over streams of well-formed, fault-enumerated and arbitrary inputs; row "
-                "bijection, warning order and Shaped-ness of decoder streams are monitored. Two printer defects repaired.",
+                "bijection and warning order are monitored. Shaped-ness of decoder streams (c14_decoder_shown) and 'every byte buffer of every decoder stream is one row' "
+                "(c14_decoder_buffers, from runWalker_endsOk: no list's run in any decoder stream, either mode, any input, is ended by a byte-buffer parent; static table "
+                "condition decided by the kernel) are theorems since session 3. Two printer defects repaired.",
         "technique": "Lean 4 proofs (induction over the list-folding state machine) + column-wise differential run of both printers",
         "design_ref": "DESIGN.md §8 C14",
     },
